@@ -396,7 +396,7 @@ class WireLog():
         """
         Write bytes data received from source host port address tuple,
         """
-        if self.rxed and self.rxl:
+        if self.rxed and self.rxl and not self.rxl.closed:
             if not isinstance(who, (bytes, bytearray, str)):
                 who = str(who)
             if hasattr(who, 'encode'):
@@ -410,7 +410,7 @@ class WireLog():
         """
         Write bytes data transmitted to destination address da,
         """
-        if self.txed and self.txl:
+        if self.txed and self.txl and not self.txl.closed:
             if not isinstance(who, (bytes, bytearray, str)):
                 who = str(who)
             if hasattr(who, 'encode'):
